@@ -121,6 +121,7 @@ type FetchRec struct {
 }
 
 type Result struct {
+	MapConflicts []simrt.MapConflict `json:"map_conflicts,omitempty"` // maps written by two tasks of this run
 	NonFinite []string `json:"non_finite,omitempty"` // result fields that held NaN / Inf (clamped to +-1e300 for transport)
 	ID           string                   `json:"id"`
 	Ops          []OpResult               `json:"ops"`
